@@ -21,7 +21,7 @@ CHECKS = {
  "C10": dict(mod="c10_threads", technique="deterministic simulation: real threads under a seeded baton scheduler pre-empting at einx source lines, simulated locks, linearizability check against einx's own sequential registry code",
    text="2-3 real caller threads run short programs (calls incl. first-time compilation, shared adapters, with-blocks, lookups, lazy imports, registrations with re-entrant factories, thread-local stack wrappers) under a scheduler that owns every context switch (line granularity in all einx files but util/solver.py; a share of the runs parks one thread inside a function of a random einx file until another thread has passed through it). Locks, events and conditions created by einx are simulated (deadlock detection, virtual-time timeouts). Each history is checked for a witness sequential order (Wing-Gong search) against BackendRegistryState stepped single-threaded, plus final-state equality, deadlock detection and a step cap. Exploration of seeded schedules, not exhaustive.",
    note="trusted: sim/sched.py (exactly one thread unparked), sim/linearize.py, the single-threaded outcome table; switches inside sympy/numpy/C code and inside util/solver.py are not explored"),
- "C11": dict(mod="c11_registry", technique="deterministic simulation of registration/import/lookup histories with failing-factory and late-import faults against an executable precedence model",
+ "C11": dict(mod="c11_registry", technique="deterministic simulation of registration/import/lookup histories with failing-factory, late-import and interrupted-lookup faults against an executable precedence model",
    text="Fresh real BackendRegistry instances populated with synthetic frameworks (priorities, eager/lazy, failing factories) are driven through seeded histories of imports, lookups, uses and with-blocks; every answer is compared with a 30-line model of the documented precedence on three registries (main, permuted registration order, eager materialisation), repeated at the end of the history and on a registry that saw no earlier lookups; a materialisation invariant is checked on every miss; an end-to-end slice identifies the backend that actually ran on the global registry (incl. a failed backend object). Exploration over seeds.",
    note="trusted: the precedence model (reading of docs/source/gettingstarted/backends.rst), synthetic frameworks stand in for torch/jax/... which are not installed; one known finding (lazy-unmaterialised) is recognised constructively and listed in known_findings.jsonl"),
  "C13": dict(mod="c13_factories", technique="deterministic simulation of call histories with instrumented, fault-injecting tensor factories; oracle = invocation log + differential against the materialised tensor",
